@@ -60,7 +60,13 @@ Inductive c11_case :=
    how many drained records were not in it, whether the sequence is strictly monotone in the requested direction;
    and whether the batch is in effect afterwards.  The iterators of the adapter models are functions of the state at
    creation, so the model's answer is: nothing missing, nothing extra, in order. *)
-| KSnapshot (e : eng) (n : N) (fwd : bool) (before : N) (missing extra : N) (inorder applied : bool).
+| KSnapshot (e : eng) (n : N) (fwd : bool) (before : N) (missing extra : N) (inorder applied : bool)
+(* KInterleave: batch 1 is begun with a guard (variant 0: CAS(guard, v1, v1); 1: CAS(guard, v1b, v1); otherwise
+   PutIfNotExist(guard)) and a Put of `other`; batch 2 rewrites the guarded key and commits; batch 1 commits.
+   b2first: batch 2 had committed before batch 1's Commit was called (memkv keeps its mutex from BeginBatchWrite, so
+   there batch 2 waits); c1: the class of batch 1; whether `other` exists afterwards; whether the guarded key holds
+   batch 2's value. *)
+| KInterleave (e : eng) (variant : N) (b2first : bool) (c1 : rclass) (other guard2 : bool).
 
 (* ---------- running a sequence on an adapter model ---------- *)
 
@@ -149,6 +155,96 @@ Definition big_check (failing : bool) (n : N) (c : rclass) (visible : N) : bool 
   (if failing then rclass_eqb c RCond && (visible =? 0) else rclass_eqb c ROk && (visible =? n))
   || (rclass_eqb c ROther && (visible =? 0)).
 
+(* ---------- two interleaved batches ---------- *)
+
+Definition il_guard : bytes := [105; 108; 47; 103].     (* "il/g" *)
+Definition il_other : bytes := [105; 108; 47; 111].     (* "il/o" *)
+Definition il_v1 : bytes := [118; 49].
+Definition il_v1b : bytes := [118; 49; 98].
+Definition il_v2 : bytes := [118; 50].
+Definition il_mine : bytes := [109].
+
+Definition il_setup (variant : N) : list bop :=
+  match variant with 0 | 1 => [Put il_guard il_v1 0] | _ => [] end.
+Definition il_b1 (variant : N) : list bop :=
+  match variant with
+  | 0 => [CAS il_guard il_v1 il_v1 0; Put il_other [120] 0]
+  | 1 => [CAS il_guard il_v1b il_v1 0; Put il_other [120] 0]
+  | _ => [PutIfNotExist il_guard il_mine 0; Put il_other [120] 0]
+  end.
+Definition il_b2 : list bop := [Put il_guard il_v2 0].
+
+Definition bop_key (o : bop) : bytes :=
+  match o with PutIfNotExist k _ _ | CAS k _ _ _ | Put k _ _ | Del k | DelCur k _ _ => k end.
+Definition bop_reads (o : bop) : bool :=
+  match o with PutIfNotExist _ _ _ | CAS _ _ _ _ | DelCur _ _ _ => true | _ => false end.
+Definition touches (keys : list bytes) (k : bytes) : bool := existsb (beqb k) keys.
+
+Definition il_obs := (bool * rclass * bool * bool)%type.
+
+Definition il_view (b2first : bool) (c1 : rclass) (final : store) : il_obs :=
+  (b2first, c1, match get final il_other with Some _ => true | None => false end,
+   match get final il_guard with Some v => beqb v il_v2 | None => false end).
+
+(* memkv: BeginBatchWrite takes the store mutex until Commit: batch 2 runs after batch 1 *)
+Definition il_memkv (variant : N) : il_obs :=
+  let '(s0, _, _) := mem_batch_run [] (il_setup variant) in
+  let '(s1, c1, _) := mem_batch_run s0 (il_b1 variant) in
+  let '(s2, _, _) := mem_batch_run s1 il_b2 in
+  il_view false c1 s2.
+
+(* TiKV: optimistic transaction with the snapshot of BeginBatchWrite; the closures read that snapshot; the commit is
+   refused (write conflict -> ErrCASFailed, batch.go:127) when a key of its own WRITE set was committed meanwhile *)
+Definition il_tikv (variant : N) : il_obs :=
+  let '(s0, _, _) := t_batch [] (il_setup variant) in
+  let '(s1, _, _) := t_batch s0 il_b2 in
+  match t_run s0 [] 1 (il_b1 variant) with
+  | inr (c, _) => il_view true c s1
+  | inl p =>
+      if existsb (fun e => touches (map bop_key il_b2) (fst e)) p
+      then il_view true RCond s1
+      else il_view true ROk (t_apply s1 p)
+  end.
+
+(* Badger: serialisable snapshot isolation: the commit is refused (badger.ErrConflict, handed on as it is) when a key
+   the transaction has READ was committed meanwhile *)
+Definition il_badger (variant : N) : il_obs :=
+  let '(s0, _, _) := b_batch (mk_bstate [] 0) (il_setup variant) in
+  let '(s1, _, _) := b_batch s0 il_b2 in
+  match b_run s0 [] 0 (il_b1 variant) with
+  | inr (c, _) => il_view true c (b_store s1)
+  | inl p =>
+      if existsb (fun o => bop_reads o && touches (map bop_key il_b2) (bop_key o)) (il_b1 variant)
+      then il_view true ROther (b_store s1)
+      else il_view true ROk (b_store (b_commit s1 p))
+  end.
+
+Definition il_expected (e : eng) (variant : N) : il_obs :=
+  match e with
+  | EMem | EWrapMem => il_memkv variant
+  | ETiKV => il_tikv variant
+  | EBadger | EWrapBadger => il_badger variant
+  end.
+
+Definition il_obs_eqb (x y : il_obs) : bool :=
+  let '(a, c, o, g) := x in let '(a', c', o', g') := y in
+  Bool.eqb a a' && rclass_eqb c c' && Bool.eqb o o' && Bool.eqb g g'.
+
+(* the property on the observation: the outcome is that of some serial order of the two batches.  If batch 2 was
+   acknowledged first, batch 1's guard is false when it commits: it must report a failed condition and leave nothing
+   behind.  Badger hands on its own conflict error instead (finding C11-F4, code 4). *)
+Definition il_oracle (e : eng) (x : il_obs) : option N :=
+  let '(b2first, c1, other, guard2) := x in
+  if b2first then
+    if negb other && guard2 then
+      match c1 with
+      | RCond => None
+      | ROther => match e with EBadger | EWrapBadger => Some 4 | _ => Some 0 end
+      | _ => Some 0
+      end
+    else Some 0
+  else ok_if (rclass_eqb c1 ROk && other && guard2).
+
 Definition c11_check (c : c11_case) : bool :=
   match c with
   | mk_c11 e steps final =>
@@ -158,6 +254,7 @@ Definition c11_check (c : c11_case) : bool :=
   | KBigBatch _ n _ failing c visible => big_check failing n c visible
   | KWrapFault _ injected observed intact => rclass_eqb observed injected && intact
   | KSnapshot _ _ _ _ missing extra inorder applied => (missing =? 0) && (extra =? 0) && inorder && applied
+  | KInterleave e variant b2first c1 other guard2 => il_obs_eqb (il_expected e variant) (b2first, c1, other, guard2)
   end.
 
 (* ---------- the property: the observation against the contract, under the C11 projection ---------- *)
@@ -290,4 +387,5 @@ Definition c11_oracle (c : c11_case) : option N :=
   | KBigBatch _ n _ failing c visible => big_oracle failing n c visible
   | KWrapFault _ injected observed intact => ok_if (rclass_eqb observed injected && intact)
   | KSnapshot _ _ _ _ missing extra inorder applied => ok_if ((missing =? 0) && (extra =? 0) && inorder && applied)
+  | KInterleave e _ b2first c1 other guard2 => il_oracle e (b2first, c1, other, guard2)
   end.
